@@ -16,7 +16,7 @@ HOSTILE = [
     ("501numbers", " ".join(["1"] * 501)), ("denormal", "1e-320"), ("tabnl", "\t\n"),
 ]
 HUGE = {"intmax", "300digits", "1e999", "501numbers"}     # may legitimately ask for unbounded resources
-HOSTILE_QUICK = ["empty", "nan", "x", "20numbers", "intmax", "format"]
+HOSTILE_QUICK = ["empty", "nan", "x", "20numbers", "intmax", "format", "501numbers"]
 
 
 def loads(lib, xml, vfs):
@@ -289,6 +289,12 @@ def cardinality_docs(item, card):
 
 
 def typed_docs(item):
+    for desc, xml, exp in _typed_docs(item):
+        if xml is not None:
+            yield desc, xml, exp
+
+
+def _typed_docs(item):
     """For every attribute of the target: every enum keyword + a non-keyword; a right-typed value and
     wrong type / arity values."""
     S, sc = G.schema()
@@ -296,9 +302,40 @@ def typed_docs(item):
     attrs = G.projected_attrs(child) if item["ctx"] == "default" else G.attrs_of(child)
     base = G.parse(item["xml"])
 
+    cons = G.constraints_of(child)
+    if item["ctx"] == "default":
+        pa = {a.name for a in attrs}
+        cons = [(k, b) for k, b in cons if all(n in pa for bb in b for n in bb)]
+
     def doc_with(name, value):
+        """the document with attribute `name` set; attributes of the base document that would now violate a presence
+        constraint together with `name` (other bundles of an exclusive / variant group) are removed, and the partners a
+        `together` / `requires` constraint demands are added, so that only the value under test decides the verdict."""
         d = base.clone()
-        node_at(d, item["path"]).set(name, value)
+        t = node_at(d, item["path"])
+        t.set(name, value)
+        amap = {a.name: a for a in attrs}
+        for kind, bundles in cons:
+            mine = [b for b in bundles if name in b]
+            if not mine:
+                continue
+            if kind in ("exclusive", "variant"):
+                for b in bundles:
+                    if name not in b:
+                        for n in b:
+                            t.delete(n)
+            elif kind == "together":
+                for b in bundles:
+                    for n in b:
+                        if t.get(n) is None and n in amap:
+                            t.set(n, G.default_value(child, amap[n]))
+            elif kind == "requires" and bundles[0][0] == name:
+                n = bundles[1][0]
+                if t.get(n) is None and n in amap:
+                    t.set(n, G.default_value(child, amap[n]))
+        present = {a for a, _ in t.attrs}
+        if not all(satisfies(k, b, present) for k, b in cons):
+            return None
         return d.xml()
     for a in attrs:
         lo, hi = G.arity(a)
